@@ -137,6 +137,16 @@ impl<T: fmt::Display> fmt::Display for Override<T> {
 /// Parses a `Meta`. A bare word will produce `Override::Inherit`, while
 /// any value will be forwarded to `T::from_meta`.
 impl<T: FromMeta> FromMeta for Override<T> {
+    /// Any form other than the bare word is handed to `T` as a whole, so that `Override<T>`
+    /// accepts exactly the items `T` accepts - including inner types which implement
+    /// `from_meta` or `from_expr` themselves, such as `Option<T>` or `syn::Expr`.
+    fn from_meta(item: &syn::Meta) -> Result<Self> {
+        match item {
+            syn::Meta::Path(_) => Self::from_word(),
+            _ => T::from_meta(item).map(Explicit),
+        }
+    }
+
     fn from_word() -> Result<Self> {
         Ok(Inherit)
     }
